@@ -127,8 +127,8 @@ theorem EnumDesc.byNameCI_of_mem {ed : EnumDesc} (hok : ed.Ok = true) {b : List 
     (hm : (b, n) ∈ ed.values) : ed.byNameCI b = some n := by
   simp only [EnumDesc.Ok, Bool.and_eq_true] at hok
   unfold EnumDesc.byNameCI
-  rw [find_of_mem_distinct (fun p : List Nat × Int => p.1.map Utf8.lowerAscii) _ (b, n)
-    (by intro x; simp [Utf8.eqIgnoreAsciiCase]) ed.values hok.1.1 hm]
+  rw [find_of_mem_distinct (fun p : List Nat × Int => p.1.map Utf8L.lowerAscii) _ (b, n)
+    (by intro x; simp [Utf8L.eqIgnoreAsciiCase]) ed.values hok.1.1 hm]
   rfl
 
 theorem EnumDesc.byNumber_of_mem {ed : EnumDesc} (hok : ed.Ok = true) {b : List Nat} {n : Int}
@@ -140,10 +140,10 @@ theorem EnumDesc.byNumber_of_mem {ed : EnumDesc} (hok : ed.Ok = true) {b : List 
   rfl
 
 theorem EnumDesc.lossy_name {ed : EnumDesc} (hok : ed.Ok = true) {b : List Nat} {n : Int}
-    (hm : (b, n) ∈ ed.values) : Utf8.lossy b = b := by
+    (hm : (b, n) ∈ ed.values) : Utf8L.lossy b = b := by
   simp only [EnumDesc.Ok, Bool.and_eq_true, List.all_eq_true] at hok
   have := hok.2 (b, n) hm
-  simpa [Utf8.valid] using this
+  simpa [Utf8L.valid] using this
 
 theorem EnumDesc.number_unique {ed : EnumDesc} (hok : ed.Ok = true) {b : List Nat} {n n' : Int}
     (hm : (b, n) ∈ ed.values) (hm' : (b, n') ∈ ed.values) : n = n' := by
@@ -357,10 +357,10 @@ theorem rt_scalar (P : Prims) (lossy : Bool) (pool : Pool) (sing : Bool) (s : Sc
         isDefaultValue_singular pool f _ hk hc]
       simp [isDefault, Field.isList, Field.isMap, isDefaultValue]
   case string.bytes b =>
-    have hv : Utf8.lossy b = b := by
+    have hv : Utf8L.lossy b = b := by
       simp only [defectScalar] at h
       split at h
-      · rename_i hv; simpa [Utf8.valid] using hv
+      · rename_i hv; simpa [Utf8L.valid] using hv
       · cases h
     refine ⟨.string b, by simp [convScalar, hv], rfl, ?_, ?_⟩
     · intro ctx; simp [toValue]
